@@ -89,6 +89,17 @@ def env_after_stmt(b, st, env, oc=None):
         vn = rv['op']['s'].split('::')[-1]
         if vn in names and len(names) > 1:
             val = ('v', vn, names.index(vn), None)
+    elif rv['k'] == 'use' and rv['op']['k'] == 'const' and rv['op'].get('pvname') is not None:
+        # a promoted `&Enum::Variant` (the right-hand side of `kind == Enum::Variant`)
+        val = ('rv', ('v', rv['op']['pvname'], rv['op']['pvariant'], None))
+    elif rv['k'] == 'ref' and not rv.get('mut'):
+        pl = rv['pl']
+        if not pl['p']:
+            val = ('r', pl['l'])
+        elif len(pl['p']) == 1 and pl['p'][0].get('k') == 'deref':
+            val = dict(env).get(pl['l'])              # a reborrow of a known reference
+            if val is not None and val[0] not in ('r', 'rv'):
+                val = None
     elif rv['k'] == 'agg' and rv.get('ak') == 'adt' and 'variant' in rv:
         payload = None
         if len(rv['ops']) == 1 and rv['ops'][0]['k'] == 'const' and 'int' in rv['ops'][0] and rv['ops'][0].get('s') in ('true', 'false'):
@@ -132,6 +143,33 @@ def env_after_stmt(b, st, env, oc=None):
     return tuple(sorted(e))
 
 
+def _env_set(b, env, dst, val):
+    e = [x for x in env if x[0] != dst]
+    e.append((dst, val))
+    if len(e) > 16:
+        e.sort(key=lambda x: (0 if b.locals[x[0]].get('user') or x[0] == dst else 1, x[0]))
+        e = e[:16]
+    return tuple(sorted(e))
+
+
+def _deref_value(env_d, val, depth=0):
+    """the known value behind a reference value"""
+    while val is not None and depth < 4:
+        if val[0] == 'r':
+            val = env_d.get(val[1])
+        elif val[0] == 'rv':
+            val = val[1]
+        else:
+            return val
+        depth += 1
+    return None
+
+
+def _fieldless(b, adt):
+    a = b.f.adts.get(adt)
+    return bool(a) and len(a['variants']) > 1 and all(not v_['fields'] for v_ in a['variants'])
+
+
 def env_after_call(b, t, env):
     if t['dest']['p']:
         return env
@@ -143,6 +181,20 @@ def env_after_call(b, t, env):
         if known and known[0] == 'v' and known[1] in BRANCH_OF:
             n, i = BRANCH_OF[known[1]]
             val = ('v', n, i, known[3] if len(known) > 3 else None)
+    if val is None and 'q' in t['callee'] and t['callee']['q'] in ('core::cmp::PartialEq::eq', 'core::cmp::PartialEq::ne') and len(t['args']) == 2 \
+            and all(a['k'] in ('copy', 'move') and not a['pl']['p'] for a in t['args']):
+        # the derived comparison of two known values of a fieldless crate-local enum
+        q = callee_q(t)
+        adt = q[1:].split(' as ')[0] if q.startswith('<') else None
+        gid = t['callee'].get('rdef') or t['callee'].get('def')
+        derived = gid in b.f.original and b.f.original[gid].generated
+        if adt and derived and _fieldless(b, adt):
+            d = dict(env)
+            va = _deref_value(d, d.get(t['args'][0]['pl']['l']))
+            vb = _deref_value(d, d.get(t['args'][1]['pl']['l']))
+            if va and vb and va[0] == 'v' and vb[0] == 'v':
+                same = va[2] == vb[2]
+                val = ('c', same if t['callee']['q'].endswith('::eq') else not same)
     if val is None and not any(l == dst for l, _ in env):
         return env
     e = [x for x in env if x[0] != dst]
@@ -179,6 +231,8 @@ class Explorer:
         start = (self.rule.init, ('Unassigned',) * (fr.d(self.start) + 1), ())
         FULL[self.start].add(start)
         work = collections.deque([(self.start, start)])     # only states that are new at a block are (re)processed
+        fork_stmt = getattr(self.rule, 'fork_stmt', None)
+        fork_call = getattr(self.rule, 'fork_call', None)
         while work:
             bi, (rs, ocs, env) = work.popleft()
             blk = b.blocks[bi]
@@ -190,43 +244,66 @@ class Explorer:
             self.visited += 1
             if self.visited > self.max_states:
                 raise RuntimeError('state explosion in ' + b.q)
-            oc = ocs[-1]
+            pend = [(rs, env, ocs[-1])]
             for st in blk['stmts']:
-                rs = self.rule.on_stmt(b, bi, st, rs)
-                env = env_after_stmt(b, st, env, oc)
-                oc = outcome_after_stmt(b, st, oc, rl)
-                if oc == 'Unknown' and env and st['k'] == 'assign' and not st['pl']['p'] and st['pl']['l'] == rl:
-                    known = dict(env).get(rl)
-                    if known and known[0] == 'v' and known[1] in ('Ok', 'Err'):
-                        oc = known[1]
-            if t['k'] == 'return':
-                self.rule.on_exit(b, bi, rs, oc)
+                nxt = []
+                for rs, env, oc in pend:
+                    rs = self.rule.on_stmt(b, bi, st, rs)
+                    env = env_after_stmt(b, st, env, oc)
+                    oc = outcome_after_stmt(b, st, oc, rl)
+                    if oc == 'Unknown' and env and st['k'] == 'assign' and not st['pl']['p'] and st['pl']['l'] == rl:
+                        known = dict(env).get(rl)
+                        if known and known[0] == 'v' and known[1] in ('Ok', 'Err'):
+                            oc = known[1]
+                    forks = fork_stmt(b, bi, st, rs) if fork_stmt else None
+                    if forks:
+                        # the rule splits on the value of the boolean this statement computes (the origin of a guard): from
+                        # here on the value is a known constant and whatever is derived from it is decided by the environment
+                        for val, rs2 in forks:
+                            nxt.append((rs2, _env_set(b, env, st['pl']['l'], ('c', bool(val))), oc))
+                    else:
+                        nxt.append((rs, env, oc))
+                pend = nxt
+            for rs, env, oc in pend:
+                self._leave(b, bi, t, rs, env, oc, ocs, rl, dep, FULL, work, fork_call)
+        return self._finish(FULL)
+
+    def _leave(self, b, bi, t, rs, env, oc, ocs, rl, dep, FULL, work, fork_call):
+        fr = self.frames
+        if t['k'] == 'return':
+            self.rule.on_exit(b, bi, rs, oc)
+            return
+        oc2 = outcome_after_term(b, t, oc, rl)
+        self.rule.cur_outcome = oc
+        r = self.rule.on_term(b, bi, t, rs)
+        env2 = env_after_call(b, t, env) if t['k'] == 'call' else env
+        only = feasible_succs(t, env)
+        ocs2 = ocs[:-1] + (oc2,)
+        if isinstance(r, list):
+            edges = [(s2, rs2, env2) for s2, rs2 in r if only is None or s2 in only]
+        else:
+            edges = [(s2, r, env2) for s2 in (succs(t) if only is None else only)]
+        if fork_call and t['k'] == 'call' and not t['dest']['p'] and not isinstance(r, list):
+            forks = fork_call(b, bi, t, r)
+            if forks and t.get('t') is not None:
+                edges = [(t['t'], rs2, _env_set(b, env2, t['dest']['l'], ('c', bool(val)))) for val, rs2 in forks]
+        for s2, rs2, e2 in edges:
+            if b.blocks[s2].get('cleanup'):
                 continue
-            oc2 = outcome_after_term(b, t, oc, rl)
-            self.rule.cur_outcome = oc
-            r = self.rule.on_term(b, bi, t, rs)
-            env2 = env_after_call(b, t, env) if t['k'] == 'call' else env
-            only = feasible_succs(t, env)
-            ocs2 = ocs[:-1] + (oc2,)
-            if isinstance(r, list):
-                edges = [(s2, rs2) for s2, rs2 in r if only is None or s2 in only]
+            d2 = fr.d(s2)
+            if d2 > dep:
+                st2 = ocs2 + ('Unassigned',) * (d2 - dep)
+            elif d2 < dep:
+                st2 = ocs2[:len(ocs2) - (dep - d2)] or ('Unassigned',)
             else:
-                edges = [(s2, r) for s2 in (succs(t) if only is None else only)]
-            for s2, rs2 in edges:
-                if b.blocks[s2].get('cleanup'):
-                    continue
-                d2 = fr.d(s2)
-                if d2 > dep:
-                    st2 = ocs2 + ('Unassigned',) * (d2 - dep)
-                elif d2 < dep:
-                    st2 = ocs2[:len(ocs2) - (dep - d2)] or ('Unassigned',)
-                else:
-                    st2 = ocs2
-                self.edges.add((bi, s2))
-                ns = (rs2, st2, env2)
-                if ns not in FULL[s2]:
-                    FULL[s2].add(ns)
-                    work.append((s2, ns))
+                st2 = ocs2
+            self.edges.add((bi, s2))
+            ns = (rs2, st2, e2)
+            if ns not in FULL[s2]:
+                FULL[s2].add(ns)
+                work.append((s2, ns))
+
+    def _finish(self, FULL):
         IN = collections.defaultdict(set)
         for bi, sts in FULL.items():
             for (rs, ocs, env) in sts:
